@@ -59,7 +59,7 @@ func commitShape(r *Run, rule string) {
 		r.Viol(rule, "Commit/lastCommitID", P.Pos(f.Pos()), "Commit no longer updates rs.lastCommitID")
 	} else {
 		v := P.TermAt(st.Val, st).String()
-		wantV := "upd(upd(zero:commitID, Version=" + newVer + "), Hash=(store/rootmulti.commitInfo).Hash(" + cStores + "))"
+		wantV := "complit:store/types.CommitID{Hash=(store/rootmulti.commitInfo).Hash(" + cStores + "), Version=" + newVer + "}"
 		r.Check(v == wantV, rule, "Commit/lastCommitID", P.InstrPos(st), v, "lastCommitID := "+v+" ; required "+wantV)
 		r.Check(Precedes(wr, st), rule, "Commit/lastCommitID-after-flush", P.InstrPos(st), "set after the flush", "lastCommitID is advanced before the batch is flushed")
 		for _, ret := range Returns(f) {
@@ -256,7 +256,7 @@ func iavlCommitShape(r *Run, rule string) {
 	}
 	for _, ret := range Returns(f) {
 		t := P.TermAt(ret.Results[0], ret).String()
-		want := "complit:store/types.CommitID{Version=" + iavlSave + "#1, Hash=" + iavlSave + "#0}"
+		want := "complit:store/types.CommitID{Hash=" + iavlSave + "#0, Version=" + iavlSave + "#1}"
 		r.Check(t == want, rule, "iavl.Commit/returns-saved-version", P.InstrPos(ret), t, "returns "+t+" ; required "+want)
 		r.requireAtoms(rule, "iavl.Commit/return", ret, P.Guards(ret, 0), []req{{"save-ok", `^isnil\(` + q(iavlSave+"#2") + `\)$`}})
 	}
